@@ -264,16 +264,30 @@ func main() {
 		}
 	}
 	// the same with built-in (native) frames in the chain: they count against the limit like script frames
-	for shape := 1; shape <= 2; shape++ {
+	for shape := 1; shape <= 4; shape++ {
 		for L := 1; L <= 9; L++ {
 			for d := 1; d <= L+2; d++ {
-				if shape == 2 && d > 4 {
+				if shape >= 2 && d > 4 {
 					continue
 				}
 				vm := otto.New()
 				vm.SetStackDepthLimit(L)
+				_ = vm.Set("nest", func(c otto.FunctionCall) otto.Value {
+					v, err := vm.Run(c.Argument(0).String())
+					if err != nil {
+						r, _ := vm.ToValue("ERR:" + err.Error())
+						return r
+					}
+					return v
+				})
 				var decl, call string
-				if shape == 1 {
+				if shape == 3 {
+					decl = `function f(n){ reached++; if (n > 0) { return (0, eval)("f(" + (n - 1) + ")"); } return 0; }`
+					call = fmt.Sprintf("f(%d)", d)
+				} else if shape == 4 {
+					decl = `function f(n){ reached++; if (n > 0) { var r = nest("f(" + (n - 1) + ")"); if (typeof r === "string" && r.indexOf("ERR:RangeError") === 0) { throw new RangeError("nested"); } return r; } return 0; }`
+					call = fmt.Sprintf("f(%d)", d)
+				} else if shape == 1 {
 					decl = `function f(n){ reached++; if (n > 1) { return f(n - 1); } var r = Math.abs(-1); return r; }`
 					call = fmt.Sprintf("f(%d)", d-1)
 					if d == 1 {
@@ -398,6 +412,63 @@ func main() {
 		}
 		env.Add(fmt.Sprintf("LCase %d %s %s %s", 100+i, Cbool(stopped), Cbool(asPanic), Cbool(rest)),
 			fmt.Sprintf("LCase spinner entered through %s, Interrupt channel installed after a first Run: stopped=%v asPanic=%v rest=%v", how, stopped, asPanic, rest), "promptness", true)
+	}
+	// one runtime interrupted several times in a row: every interrupt must be honoured (nothing left behind by the
+	// previous one), through Run and through a re-entrant Run made by a host function
+	{
+		vm := otto.New()
+		ich := make(chan func(), 1)
+		vm.Interrupt = ich
+		_ = vm.Set("nest", func(c otto.FunctionCall) otto.Value { v, _ := vm.Run(c.Argument(0).String()); return v })
+		allStopped, allPanic := true, true
+		for round, src := range []string{`for (;;) {}`, `while (true) {}`, `nest("for (;;) {}")`, `function s() { for (;;) {} } s();`} {
+			_ = round
+			ch := make(chan Outcome, 1)
+			go func() { ch <- RunJS(vm, src) }()
+			time.Sleep(15 * time.Millisecond)
+			select {
+			case ich <- func() { panic(haltMsg) }:
+			case <-time.After(2 * time.Second):
+			}
+			select {
+			case o := <-ch:
+				if s2, ok := o.Panic.(string); !ok || s2 != haltMsg {
+					allPanic = false
+				}
+			case <-time.After(3 * time.Second):
+				allStopped = false
+			}
+			if !allStopped {
+				break
+			}
+		}
+		d, _ := vm.VerifScopeDepth()
+		rest := allStopped && d == -1 && vm.VerifLabelCount() == 0
+		env.Add(fmt.Sprintf("LCase %d %s %s %s", 210, Cbool(allStopped), Cbool(allPanic), Cbool(rest)),
+			fmt.Sprintf("LCase four non-terminating scripts in a row on ONE runtime, each interrupted once: all stopped=%v all with the host's panic=%v atRest=%v", allStopped, allPanic, rest), "repeat-interrupt", true)
+	}
+	// an interrupt that arrives after the last polling point of a nested Run (made by a host function) still belongs
+	// to the runtime: the outer script must be stopped by it
+	{
+		vm := otto.New()
+		ich := make(chan func(), 1)
+		vm.Interrupt = ich
+		_ = vm.Set("arm", func(c otto.FunctionCall) otto.Value { ich <- func() { panic(haltMsg) }; return otto.UndefinedValue() })
+		_ = vm.Set("nest", func(c otto.FunctionCall) otto.Value { v, _ := vm.Run(c.Argument(0).String()); return v })
+		ch := make(chan Outcome, 1)
+		go func() { ch <- RunJS(vm, `var after = 0; nest("arm()"); for (;;) { after++; if (after > 2000000) { break; } } after`) }()
+		stopped, asPanic, rest := false, false, false
+		select {
+		case o := <-ch:
+			stopped = true
+			s2, ok := o.Panic.(string)
+			asPanic = ok && s2 == haltMsg
+			d, _ := vm.VerifScopeDepth()
+			rest = d == -1 && vm.VerifLabelCount() == 0
+		case <-time.After(20 * time.Second):
+		}
+		env.Add(fmt.Sprintf("LCase %d %s %s %s", 211, Cbool(stopped), Cbool(asPanic), Cbool(rest)),
+			fmt.Sprintf("LCase interrupt queued by the last call of a nested Run: outer script stopped=%v with the host's panic=%v atRest=%v", stopped, asPanic, rest), "nested-run-interrupt", true)
 	}
 	// an interrupt queued for one runtime is consumed by that runtime only: a Copy() (or a copy of a copy) that
 	// runs a script in between must neither take it nor be stopped by it
